@@ -178,6 +178,24 @@ impl Ctx {
     /// e.g. crashes are forwarded to C08). `sig` is the stable signature used
     /// for de-duplication and known-finding matching.
     pub fn violation(&mut self, prop: &str, sig: &str, scenario: Value, detail: Value) {
+        fn clip(v: &mut Value) {
+            match v {
+                Value::String(s) if s.len() > 400 => {
+                    let mut cut = 400;
+                    while !s.is_char_boundary(cut) {
+                        cut -= 1;
+                    }
+                    let total = s.len();
+                    s.truncate(cut);
+                    s.push_str(&format!("...({total} bytes)"));
+                }
+                Value::Array(a) => a.iter_mut().for_each(clip),
+                Value::Object(o) => o.values_mut().for_each(clip),
+                _ => {}
+            }
+        }
+        let mut detail = detail;
+        clip(&mut detail);
         let key = format!("{prop}|{sig}");
         let n = self.viol_per_sig.entry(key).or_insert(0);
         *n += 1;
